@@ -23,6 +23,7 @@ type wireStream struct {
 	newDelivered bool
 	// request direction
 	reqRemaining int64 // bytes still to come of the current request message (-1: none in progress)
+	halfMid      bool  // half-close emitted while a request message was incomplete
 	reqMsgs      int
 	halfClosed   int
 	cancels      int
@@ -219,6 +220,9 @@ func (m *WireMonitor) clientFrame(wl *wireLink, e *TapEvent, f *tunnelpb.ClientT
 		}
 		st.reqRemaining -= int64(n)
 	case *tunnelpb.ClientToServer_HalfClose:
+		if st.halfClosed == 0 && st.reqRemaining > 0 {
+			st.halfMid = true // the request stream was half-closed in the middle of a message
+		}
 		st.halfClosed++
 		if st.halfClosed > 1 {
 			m.v("C13", "second-half-close", "link %d stream %d: half-close emitted %d times", wl.link.ID, id, st.halfClosed)
@@ -650,6 +654,22 @@ func (m *WindowMonitor) Counters() map[string]int {
 var _ = fmt.Sprintf
 
 // StreamByTag finds the link and stream id of the RPC with the given x-rpc tag.
+// HalfClosedMidMessage reports whether the client half-closed the tagged RPC's request stream in
+// the middle of a message (possible only after a failed SendMsg).
+func (m *WireMonitor) HalfClosedMidMessage(tag string) bool {
+	t := m.w.Tap
+	t.mu.Lock()
+	defer t.mu.Unlock()
+	for _, wl := range m.links {
+		for _, st := range wl.streams {
+			if st.tag == tag && st.halfMid {
+				return true
+			}
+		}
+	}
+	return false
+}
+
 func (m *WireMonitor) StreamByTag(tag string) (*Link, int64, bool) {
 	t := m.w.Tap
 	t.mu.Lock()
